@@ -84,6 +84,16 @@ def replay(col, case):
         col.count(1)
         if got is not None and not close(got, fr(case[key])):
             col.violation(name + "-wrong-value", dict(rep, truth=case["truth"], expected=float(fr(case[key])), observed=float(got)))
+        # the same values as column vectors (n, 1), and the mixed layouts mape itself ravels
+        shapes = [("n1-n1", est.reshape(n, 1), truth.reshape(n, 1))]
+        if name == "mape":
+            shapes += [("n1-n", est.reshape(n, 1), truth.copy()), ("n-n1", est.copy(), truth.reshape(n, 1))]
+        for sname, yp, yt in shapes:
+            gs = call(name, fn, yp, yt)
+            col.count(1)
+            if gs is not None and (np.ndim(gs) != 0 or not close(gs, fr(case[key]))):
+                col.violation(name + "-wrong-value-shape-" + sname, dict(rep, truth=case["truth"],
+                              expected=float(fr(case[key])), observed=np.asarray(gs, dtype=float).tolist()))
         # order of the samples is irrelevant; a common scale factor cancels
         perm = np.arange(n)[::-1]
         g2 = call(name, fn, est[perm] * 4.0, truth[perm] * 4.0)
